@@ -90,8 +90,8 @@ fn bystander(r: &mut Prng, case: &mut Case) -> Vec<Op> {
     ops
 }
 
-pub fn gen_case(r: &mut Prng) -> Case {
-    let mut case = crate::props::c07::gen_case(r, "C15", true);
+pub fn gen_case(r: &mut Prng, big: bool) -> Case {
+    let mut case = crate::props::c07::gen_case(r, "C15", true, big);
     // move the evaluation into simulated thread 0 (= task 1); registrations stay in `pre`
     let eval = case.pre.pop().unwrap();
     case.threads.push(vec![eval]);
@@ -244,7 +244,7 @@ impl Prop for C15 {
         12000 * tier.scale()
     }
 
-    fn run_index(&self, idx: u64, seed: u64, _tier: Tier, rt: &mut Rt) -> Vec<Violation> {
+    fn run_index(&self, idx: u64, seed: u64, tier: Tier, rt: &mut Rt) -> Vec<Violation> {
         let mut r = Prng::derive(seed, "C15.case", idx);
         if idx % 8 == 7 {
             // fault storm: many failing evaluations in one process lifetime
@@ -272,7 +272,7 @@ impl Prop for C15 {
                 Judged::Held(_) => vec![],
             };
         }
-        let base = Arc::new(gen_case(&mut r));
+        let base = Arc::new(gen_case(&mut r, tier == Tier::Thorough));
         rt.case_seen(base.fingerprint());
         if let Err(why) = preflight(&base, rt) {
             rt.skip(&format!("preflight: {}", why.split_whitespace().take(3).collect::<Vec<_>>().join(" ")));
